@@ -221,7 +221,8 @@ class C11(Check):
 
         def negatives():
             for kind in ("hidden-through-module", "hidden-by-name", "assign-member", "assign-const-member", "reassign-module",
-                         "unknown-member"):
+                         "unknown-member", "opassign-member", "opassign-const-member", "opassign-member-element", "opassign-member-in-fn",
+                         "unwrap-into-member", "assign-member-element"):
                 for form_sp in range(len(SPELLINGS)):
                     yield ("neg", kind, form_sp)
         def subdirs_dev(k, ns=(2, 3, 4)):
@@ -297,6 +298,12 @@ class C11(Check):
             "assign-const-member": f"import {sp}\nm1.K1 = 5\nprint m1.K1\n",
             "reassign-module": f"import {sp}\nm1 = 5\n",
             "unknown-member": f"import {sp}\nprint m1.nothing\n",
+            "opassign-member": f"import {sp}\nm1.cnt1 += 5\nprint m1.cnt1\n",
+            "opassign-const-member": f"import {sp}\nm1.K1 *= 2\nprint m1.K1\n",
+            "opassign-member-element": f"import {sp}\nm1.lst1.push(1)\nm1.lst1[0] -= 1\nprint m1.lst1\n",
+            "opassign-member-in-fn": f"import {sp}\nhf = fn() {{\n\tm1.cnt1 %= 2\n}}\nhf()\nprint m1.cnt1\n",
+            "unwrap-into-member": f"import {sp}\ngv = fn() -> int? {{\n\treturn 4\n}}\nm1.cnt1 ?= gv()\nprint m1.cnt1\n",
+            "assign-member-element": f"import {sp}\nm1.lst1.push(1)\nm1.lst1[0] = 9\nprint m1.lst1\n",
         }[kind]
         files = {"main.ms": 'print "init main"\n' + body, "m1.ms": m1}
         d = driver.fresh_dir()
